@@ -1,7 +1,9 @@
 """C04 - macro expansion agrees with evaluation: hypothesis agreement of fast paths, truncation, trust levels."""
 import ast
+import re
 
 from ..core import RuleResult, need
+from ..cfg import cfg_of
 from ..astutil import src, call_attr, call_name, is_name, path_of, attr_stores, returns_of
 from ..macros import macro_index, MACRO
 from . import macro_rules as mr
@@ -317,8 +319,106 @@ def rule_m15(repo):
     return res
 
 
+def _closing_loops(f):
+    """[(kernel step, CFG loop node, sequence as it reads at the loop)] for loops `for v in SEQ: acc = ..step(v, ..)..` that apply one
+    kernel step per element to an accumulator"""
+    STEPS = ('forall_intr', 'implies_intr', 'forall_elim', 'implies_elim')
+    cfg = cfg_of(f.node)
+    out = []
+    for it in cfg.nodes_of_kind('iter'):
+        lp = it.ast
+        if not isinstance(lp.target, ast.Name) or len(lp.body) != 1 or not isinstance(lp.body[0], ast.Assign):
+            continue
+        st = lp.body[0]
+        c = st.value
+        if not (isinstance(c, ast.Call) and call_attr(c) in STEPS and len(st.targets) == 1 and isinstance(st.targets[0], ast.Name)):
+            continue
+        acc = st.targets[0].id
+        if not any(is_name(x, acc) for x in ast.walk(c)) or not any(is_name(a, lp.target.id) for a in c.args):
+            continue
+        out.append((call_attr(c), it, cfg.value_at(it, lp.iter)))
+    return out
+
+
+def _normal_text(e, renames):
+    """text of an expression with the premises parameter named alike on both sides, bound variables of comprehensions numbered,
+    reversed(x) / x[::-1] and list / tuple wrappers identified"""
+    import copy
+    e = copy.deepcopy(e)
+    counter = [0]
+
+    class N(ast.NodeTransformer):
+        def __init__(self, env):
+            self.env = env
+
+        def visit_Name(self, n):
+            return ast.copy_location(ast.Name(id=self.env.get(n.id, renames.get(n.id, n.id)), ctx=n.ctx), n)
+
+        def _comp(self, n):
+            env = dict(self.env)
+            for g in n.generators:
+                for x in ast.walk(g.target):
+                    if isinstance(x, ast.Name):
+                        counter[0] += 1
+                        env[x.id] = '_b%d' % counter[0]
+            return N(env).generic_visit(n)
+        visit_ListComp = visit_SetComp = visit_GeneratorExp = visit_DictComp = _comp
+
+        def visit_Call(self, n):
+            self.generic_visit(n)
+            if isinstance(n.func, ast.Name) and n.func.id in ('list', 'tuple') and len(n.args) == 1 and not n.keywords:
+                return n.args[0]
+            return n
+
+        def visit_Subscript(self, n):
+            self.generic_visit(n)
+            sl = n.slice
+            if isinstance(sl, ast.Slice) and sl.lower is None and sl.upper is None and isinstance(sl.step, ast.UnaryOp) and \
+                    isinstance(sl.step.op, ast.USub) and isinstance(sl.step.operand, ast.Constant) and sl.step.operand.value == 1:
+                return ast.Call(func=ast.Name(id='reversed', ctx=ast.Load()), args=[n.value], keywords=[])
+            return n
+    return src(N({}).visit(e), 400)
+
+
+def rule_m16(repo):
+    """A macro that ends by applying one kernel step per element of a sequence (generalising over the schematic variables
+    that are left, discharging assumptions) must do so over the same sequence in the evaluation and in the expansion -
+    otherwise the two state different theorems for the inputs on which the sequences differ.  The sequences are read
+    where the loops stand (each local replaced by its one reaching definition) and compared as expressions over the
+    macro's parameters."""
+    res = RuleResult('C04.M16', 'evaluation and expansion apply their closing steps (forall_intr, implies_intr ..) over the same sequence', floor=1)
+    for mi in macro_index(repo):
+        gp = mi.cls.methods.get('get_proof_term')
+        if mi.eval is None or gp is None:
+            continue
+        le, lg = _closing_loops(mi.eval), _closing_loops(gp)
+        pe, pg = mi.eval.params(), gp.params()
+        ren = {}
+        for a, b in zip(pe[1:], pg[1:]):
+            ren[a] = ren[b] = '_p%d' % (pe.index(a))
+        for step in sorted({k for k, _n, _s in le} & {k for k, _n, _s in lg}):
+            se = [_normal_text(x, ren) for k, _n, x in le if k == step]
+            sg = [_normal_text(x, ren) for k, _n, x in lg if k == step]
+            if len(se) != 1 or len(sg) != 1:
+                continue
+            ok = se[0] == sg[0]
+            if not ok:
+                # the same ingredients combined in another way are not judged: only a sequence drawn from something else is reported
+                leaves = lambda t: sorted(set(re.findall(r'[A-Za-z_][A-Za-z_0-9.]*', t)) - {'for', 'in', 'if', 'not', 'and', 'or', 'reversed'})
+                if leaves(se[0]) == leaves(sg[0]):
+                    res.info.setdefault('not_compared', []).append('%s %s: `%s` / `%s`' % (mi.key, step, se[0], sg[0]))
+                    continue
+            loc = [n for k, n, _s in le if k == step][0]
+            res.add('%s :: eval-vs-expansion :: closing(%s)' % (mi.key, step), ok,
+                    'both run over `%s`' % se[0][:120] if ok else
+                    'the evaluation applies %s over `%s`, the expansion over `%s`: for inputs on which these differ (a premise that still has schematic '
+                    'variables of its own) the evaluation states another theorem than the expansion proves' % (step, se[0][:160], sg[0][:160]),
+                    '%s:%d' % (mi.eval.module.rel, loc.lineno))
+    return res
+
+
 def rules(repo):
     m1 = mr.hyps_rule(repo, 'C04.M1', mr.all_macros, floor=95)
     m2 = mr.zip_rule(repo, 'C04.M2', mr.macro_eval_functions(repo), floor=4)
     return [m1, m2, rule_m3(repo), rule_m5(repo), rule_m6(repo), rule_m7(repo), rule_m8(repo), rule_m9(repo), rule_m10(repo), mr.expansion_uses_rule(repo, 'C04.M11', mr.all_macros, floor=25),
-            mr.argument_dependence_rule(repo, 'C04.M12', mr.all_macros, floor=30), rule_m13(repo), rule_m14(repo), rule_m15(repo)]
+            mr.argument_dependence_rule(repo, 'C04.M12', mr.all_macros, floor=30), rule_m13(repo), rule_m14(repo), rule_m15(repo), rule_m16(repo)]
